@@ -10,7 +10,8 @@ THEOREMS = [
 MODULE = "LV.Shachain.Props"
 TARGETS = ["theories/Shachain/Props.vo", "theories/Shachain/Exec.vo",
            "theories/Shachain/Examples.vo", "theories/Shachain/GenBridge.vo"]
-WARM = [{"pkg": "shachain", "files": ["shachain/verif_store_test.go"]}] + chan_check.WARM
+WARM = [{"pkg": "shachain", "files": ["shachain/verif_store_test.go"]}] + chan_check.WARM + \
+    [{"pkg": "contractcourt", "files": ["contractcourt/verif_breachwatch_test.go"]}]
 IMPORTS = ("From Coq Require Import List NArith.\nImport ListNotations.\n"
            "From LV Require Import Shachain.Exec.\n")
 
@@ -301,5 +302,29 @@ _store_run = run
 def run(ctx):
     """C06 = store/producer/codec half (above) + release-rule half decided on real
     channels (schedules with restarts, reconnects and stale side writers)."""
-    _store_run(ctx)
-    chan_check.run_prop(ctx, "C06", nested=True)
+    # third stage, in a thread next to the other two: the node must reproduce every
+    # received secret also through the CHAIN WATCHER's own OpenChannel instance (loaded from
+    # the database earlier than the revocations it is asked about) — props/breachwatch.py
+    import threading
+    bw = {"res": None, "err": None}
+
+    def breachwatch_stage():
+        try:
+            from props import breachwatch
+            bw["res"] = breachwatch.run_stage(ctx)
+        except Exception:
+            import traceback
+            bw["err"] = traceback.format_exc()
+
+    th = threading.Thread(target=breachwatch_stage)
+    th.start()
+    try:
+        _store_run(ctx)
+        chan_check.run_prop(ctx, "C06", nested=True)
+    finally:
+        th.join()
+    if bw["err"]:
+        ctx.violation("harness_failed", "breachwatch stage crashed", {"traceback": bw["err"]},
+                      signature="breachwatch-stage-crashed", failing_input=False)
+    elif bw["res"] is not None:
+        ctx.cov["breachwatch_stage"] = bw["res"]
